@@ -149,6 +149,13 @@ pub fn mutating_ops(n: usize, len: usize, wide: bool) -> Vec<Op> {
         }
         ops.push(Op::ExtendFromSlice(m));
     }
+    if n == 3 || n == 8 {
+        // bulk arguments far beyond any plausible chunking threshold
+        for m in [4095u32, 4096, 4097] {
+            ops.push(Op::Extend(m, Hint::Exact));
+            ops.push(Op::ExtendFromSlice(m));
+        }
+    }
     if wide {
         for r in all_bound_pairs(&ix) {
             ops.push(Op::Drain(r, vec![], End::Drop));
@@ -555,10 +562,11 @@ pub fn c08(n: usize, start: usize, len: usize) -> Vec<Case> {
             }
         }
         for pre in [vec![], vec![Step::Next], vec![Step::NextBack], vec![Step::Next, Step::NextBack, Step::Next]] {
-            for t in [Step::Count, Step::Last, Step::Fold, Step::RevCollect, Step::Dbg, Step::RFold, Step::RevLast, Step::Search] {
+            for t in [Step::Count, Step::Last, Step::Fold, Step::RevCollect, Step::Dbg, Step::RFold, Step::RevLast, Step::Search, Step::FindMid, Step::RFindMid] {
                 let mut s = pre.clone();
                 s.push(t);
                 s.push(Step::Next);
+                s.push(Step::NextBack);
                 out.push(base(n, start, len, vec![Op::IterScript(kind, s)]));
             }
         }
@@ -573,6 +581,10 @@ pub fn c08(n: usize, start: usize, len: usize) -> Vec<Case> {
                 out.push(base(n, start, len, vec![Op::IntoIter(s)]));
             }
         }
+    }
+    for t in [Step::FindMid, Step::RFindMid] {
+        out.push(base(n, start, len, vec![Op::IntoIter(vec![t, Step::Next, Step::NextBack])]));
+        out.push(base(n, start, len, vec![Op::IntoIter(vec![Step::NextBack, t, Step::Next])]));
     }
     for t in [Step::Count, Step::Last, Step::Fold, Step::RevCollect, Step::Dbg, Step::RFold, Step::RevLast] {
         out.push(base(n, start, len, vec![Op::IntoIter(vec![Step::Next, t])]));
@@ -624,6 +636,13 @@ pub fn c09(n: usize, start: usize, len: usize, end: End) -> Vec<Case> {
                             s.extend(t);
                             out.push(base(n, start, len, vec![Op::Drain(canonical(a, b), s, End::Drop)]));
                         }
+                    }
+                    for t in [Step::FindMid, Step::RFindMid] {
+                        let mut s = pre.clone();
+                        s.push(t);
+                        s.push(Step::Next);
+                        s.push(Step::NextBack);
+                        out.push(base(n, start, len, vec![Op::Drain(canonical(a, b), s, End::Drop)]));
                     }
                     for t in [Step::Count, Step::Last, Step::Fold, Step::RevCollect, Step::RFold, Step::RevLast] {
                         let mut s = pre.clone();
